@@ -147,4 +147,159 @@ def run (vers : Nat) : Nat → St → Bytes → List (Nat × Nat) → (List (Nat
     | .msg t l st' rest => run vers fuel st' rest ((t, l) :: acc)
     | o => (acc.reverse, o)
 
+/-! ## halfConn.decrypt — the slicing skeleton of every record-protection class
+
+  What the record layer does with the payload of ONE record once a cipher is (or is not) installed: every length guard,
+  every slice expression and every index expression of `halfConn.decrypt` / `extractPadding` (tls/conn.go), for the
+  stream, CBC (implicit / explicit IV), AEAD (explicit / implicit nonce) and TLS 1.3 classes.  No cryptography is
+  modelled: the decrypted bytes `dec` (CBC: the payload behind the explicit IV after CryptBlocks; TLS 1.3: the opened
+  inner plaintext) and the verdict `auth` of the MAC comparison / AEAD tag are INPUTS.  So "no record of any length
+  makes decrypt panic, whatever the primitives return" is a theorem about the guards (`decrypt_no_panic`). -/
+
+inductive CK | none | stream | aead | cbc
+  deriving Repr, DecidableEq
+
+/-- the read half-connection as far as lengths matter -/
+structure HC where
+  kind : CK
+  vers : Nat
+  block : Nat       -- cbc: c.BlockSize()
+  nonce : Nat       -- aead: c.explicitNonceLen()
+  overhead : Nat    -- aead: c.Overhead()
+  hasMac : Bool     -- hc.mac != nil
+  macSize : Nat     -- hc.mac.Size()
+  deriving Repr, DecidableEq
+
+def alertBadRecordMAC : Nat := 20
+def alertUnexpectedMessage : Nat := 10
+def alertRecordOverflow : Nat := 22
+
+inductive DOut where
+  | plain (typ : Nat) (n : Nat)    -- decrypt returned (plaintext of n bytes, typ, nil)
+  | alert (a : Nat)
+  | panic
+  deriving Repr, DecidableEq
+
+/-- Go `s[lo:]` -/
+def sliceFrom (s : Bytes) (lo : Nat) : Res Bytes := if lo ≤ s.length then .ok (s.drop lo) else .panic
+/-- Go `s[:hi]`, read strictly (capacity = length) -/
+def sliceTo (s : Bytes) (hi : Nat) : Res Bytes := if hi ≤ s.length then .ok (s.take hi) else .panic
+/-- Go `s[lo:hi]`, read strictly -/
+def slice (s : Bytes) (lo hi : Nat) : Res Bytes :=
+  if lo ≤ hi ∧ hi ≤ s.length then .ok ((s.take hi).drop lo) else .panic
+
+def explicitNonceLen (hc : HC) : Nat :=
+  match hc.kind with
+  | .none => 0
+  | .stream => 0
+  | .aead => hc.nonce
+  | .cbc => if hc.vers ≥ 0x0302 then hc.block else 0
+
+/-- `a + (b-a%b)%b`; the `%` of Go panics on a zero divisor -/
+def roundUp (a b : Nat) : Res Nat := if b = 0 then .panic else .ok (a + (b - a % b) % b)
+
+/-- the checking loop of extractPadding: `for i := 0; i < toCheck; i++ { … payload[len(payload)-1-i] … }`;
+    `k` = iterations left.  `good` stays true iff every byte at distance `i ≤ paddingLen` from the end equals paddingLen -/
+def padLoop (payload : Bytes) (paddingLen : Nat) : Nat → Nat → Bool → Res Bool
+  | 0, _, good => .ok good
+  | k + 1, i, good =>
+    if i + 1 ≤ payload.length then
+      match idx payload (payload.length - 1 - i) with
+      | .ok b => padLoop payload paddingLen k (i + 1) (good && (if i ≤ paddingLen then b.toNat = paddingLen else true))
+      | _ => .panic
+    else .panic
+
+/-- extractPadding: (toRemove, good) -/
+def extractPadding (payload : Bytes) : Res (Nat × Bool) :=
+  if payload.length < 1 then .ok (0, false)
+  else
+    match idx payload (payload.length - 1) with
+    | .ok pl =>
+      let paddingLen := pl.toNat
+      let good0 : Bool := decide (paddingLen ≤ payload.length - 1)   -- MSB of uint(len-1) - uint(paddingLen) is zero
+      let toCheck := if 256 > payload.length then payload.length else 256
+      match padLoop payload paddingLen toCheck 0 good0 with
+      | .ok good => .ok ((if good then paddingLen else 0) + 1, good)
+      | _ => .panic
+    | _ => .panic
+
+/-- TLS 1.3: strip the zero padding and find the inner content type scanning from the end.
+    `none` = the (non-empty) plaintext is all zero -/
+def scanInner (typ : Nat) (pt : Bytes) : Option (Nat × Nat) :=
+  match pt.reverse.dropWhile (fun b => b == 0) with
+  | [] => if pt.isEmpty then some (typ, 0) else none
+  | t :: rest => some (t.toNat, rest.length)
+
+/-- the `if hc.mac != nil { … }` tail -/
+def macPart (hc : HC) (typ : Nat) (plaintextLen : Nat) (payload : Bytes) (paddingLen : Nat) (paddingGood auth : Bool) : DOut :=
+  if hc.hasMac then
+    if payload.length < hc.macSize then .alert alertBadRecordMAC
+    else
+      let n := payload.length - hc.macSize - paddingLen          -- clamped at 0 by the ConstantTimeSelect
+      match slice payload n (n + hc.macSize), sliceTo payload n, sliceFrom payload (n + hc.macSize) with
+      | .ok _, .ok pt, .ok _ =>
+        if auth && paddingGood then .plain typ pt.length else .alert alertBadRecordMAC
+      | _, _, _ => .panic
+  else .plain typ plaintextLen
+
+/-- the TLS 1.3 block after the cipher switch -/
+def tls13Part (hc : HC) (typ : Nat) (plaintext : Bytes) (k : Nat → Nat → DOut) : DOut :=
+  if hc.vers = 0x0304 then
+    if typ ≠ 23 then .alert alertUnexpectedMessage
+    else if plaintext.length > maxPlaintext + 1 then .alert alertRecordOverflow
+    else match scanInner typ plaintext with
+      | none => .alert alertUnexpectedMessage
+      | some (t, n) => k t n
+  else k typ plaintext.length
+
+/-- `if explicitNonceLen > 0 { c.SetIV(payload[:explicitNonceLen]); payload = payload[explicitNonceLen:] }`
+    (SetIV panics on an IV that is not one block long) -/
+def stripIV (block enl : Nat) (payload : Bytes) : Res Bytes :=
+  if enl > 0 then
+    match sliceTo payload enl, sliceFrom payload enl with
+    | .ok iv, .ok body => if iv.length = block then .ok body else .panic
+    | _, _ => .panic
+  else .ok payload
+
+/-- `halfConn.decrypt(record)`: `typ` = record[0], `payload` = record[5:] -/
+def decrypt (hc : HC) (typ : Nat) (payload : Bytes) (dec : Bytes) (auth : Bool) : DOut :=
+  if hc.vers = 0x0304 ∧ typ = 20 then .plain typ payload.length
+  else
+    let enl := explicitNonceLen hc
+    match hc.kind with
+    | .none => macPart hc typ payload.length payload 0 true auth           -- plaintext = payload
+    | .stream =>                                                          -- XORKeyStream: length preserved
+      tls13Part hc typ [] (fun t n => macPart hc t n payload 0 true auth)
+    | .aead =>
+      if payload.length < enl then .alert alertBadRecordMAC
+      else
+        match sliceTo payload enl, sliceFrom payload enl with
+        | .ok _, .ok body =>
+          -- c.Open fails unless the tag verifies; it needs at least Overhead() bytes
+          if ¬ auth ∨ body.length < hc.overhead then .alert alertBadRecordMAC
+          else
+            let plaintext : Bytes := if hc.vers = 0x0304 ∧ dec.length = body.length - hc.overhead then dec
+                                     else List.replicate (body.length - hc.overhead) 1
+            tls13Part hc typ plaintext (fun t n => macPart hc t n body 0 true auth)
+        | _, _ => .panic
+    | .cbc =>
+      if ¬ hc.hasMac then .panic                                           -- hc.mac.Size() on a nil MAC
+      else
+        match roundUp (hc.macSize + 1) hc.block with
+        | .ok ru =>
+          let minPayload := enl + ru
+          if payload.length % hc.block ≠ 0 ∨ payload.length < minPayload then .alert alertBadRecordMAC
+          else
+            match stripIV hc.block enl payload with
+            | .ok body =>
+              if body.length % hc.block ≠ 0 then .panic                    -- CryptBlocks: "input not full blocks"
+              else
+                let body' := if dec.length = body.length then dec else body
+                match extractPadding body' with
+                | .ok (paddingLen, paddingGood) =>
+                  tls13Part hc typ [] (fun t n => macPart hc t n body' paddingLen paddingGood auth)
+                | _ => .panic
+            | _ => .panic
+        | _ => .panic
+
 end ZV.C32
